@@ -361,7 +361,9 @@ def run_property(prop, tier, seed, replay=None, jobs=None, only=None):
         continue
       if jobs > 1 and len(phase) > 1:
         ctx = multiprocessing.get_context("fork")
-        pool = ctx.Pool(jobs)
+        # one chunk per worker process: what a case can inherit is the earlier cases of its own chunk, never whatever
+        # chunks the scheduler happened to give the same worker before (verdicts do not depend on scheduling)
+        pool = ctx.Pool(jobs, maxtasksperchild=1)
         it = pool.imap_unordered(_work, phase, chunksize=1)
       else:
         pool = None
